@@ -118,15 +118,18 @@ def concrete_thresholds(mt, cfg, vals):
 
 
 def threshold_values(model, cfg):
+    """Concrete thresholds of a model; a threshold the model does not mention is unconstrained on this path and is
+    replayed as 'no cut-off' (inf / -inf) rather than as the completion value 0."""
+    names = {d.name() for d in model.decls()}
     v = {}
     if cfg.sym_maxdist:
-        v['max_dist'] = max(E.model_value(model, z3.Real("max_dist_sq")), 0.0) ** 0.5
+        v['max_dist'] = max(E.model_value(model, z3.Real("max_dist_sq")), 0.0) ** 0.5 if "max_dist_sq" in names else float('inf')
     if cfg.sym_init:
-        v['max_dist_init'] = max(E.model_value(model, z3.Real("max_dist_init_sq")), 0.0) ** 0.5
+        v['max_dist_init'] = max(E.model_value(model, z3.Real("max_dist_init_sq")), 0.0) ** 0.5 if "max_dist_init_sq" in names else float('inf')
     if cfg.sym_minprob:
-        v['min_logprob_norm'] = E.model_value(model, z3.Real("min_logprob_norm"))
+        v['min_logprob_norm'] = E.model_value(model, z3.Real("min_logprob_norm")) if "min_logprob_norm" in names else -float('inf')
     if cfg.sym_nelf:
-        v['ne_length_factor_log'] = E.model_value(model, z3.Real("ne_length_factor_log"))
+        v['ne_length_factor_log'] = E.model_value(model, z3.Real("ne_length_factor_log")) if "ne_length_factor_log" in names else math.log(cfg.nelf)
     return v
 
 
@@ -263,6 +266,13 @@ class Oracle:
             return z3.BoolVal(True)
         q = self.q_obs(s, t)
         return q < m if strict else q <= m
+
+    def dist_ok_margin(self, s, t, which='max_dist', margin=z3.Q(1, 10 ** 4)):
+        """within the cut-off with room to spare (used for robust counterexamples that survive the float replay)."""
+        m = self._md2(which)
+        if m is None:
+            return z3.BoolVal(True)
+        return self.q_obs(s, t) + margin <= m
 
     def prob_ok(self, sc, length, band=None):
         ml = self.mt.min_logprob_norm
